@@ -414,6 +414,37 @@ func runC03(c *Ctx) {
 				return &mon.RecReader{Src: r.Fill, Short: short, KeepLog: true}
 			}})
 		}
+		// reader contents at the edges of every plausible reduction rule: the 40 bytes read as an integer b = q*m + r for
+		// m in {n, n-1, n-2, n-3}, r at both ends of [0, m), q in {0, 1, a random 64-bit value}: whatever modulus an
+		// implementation reduces by, the key must come out in [1, n-2]
+		for mi, md := range []int64{0, 1, 2, 3} {
+			m := new(big.Int).Sub(ref.N, big.NewInt(md))
+			for _, rs := range []int64{0, 1, 2, -1, -2, -3} {
+				for qi, q := range []*big.Int{big.NewInt(0), big.NewInt(1), new(big.Int).SetUint64(rg.U64())} {
+					res := big.NewInt(rs)
+					if rs < 0 {
+						res.Add(m, res)
+					}
+					b := new(big.Int).Mul(q, m)
+					b.Add(b, res)
+					raw := b.FillBytes(make([]byte, 40))
+					rds = append(rds, rd{fmt.Sprintf("edge/m=n-%d/r=%d/q%d", md, rs, qi), func() io.Reader {
+						pos := 0
+						return &mon.RecReader{Src: func(p []byte) {
+							for i := range p {
+								if pos < len(raw) {
+									p[i] = raw[pos]
+								} else {
+									p[i] = 0
+								}
+								pos++
+							}
+						}, KeepLog: true}
+					}})
+				}
+			}
+			_ = mi
+		}
 		nm2 := new(big.Int).Sub(ref.N, big.NewInt(2))
 		seenD := map[string]string{}
 		for i, r := range rds {
